@@ -83,6 +83,8 @@ def workflows():
                          comp('T', ['Agg:ref'], stage=1)],
         {'stage0.S0': m(replica_of='S'), 'stage0.S1': m(replica_of='S'),
          'stage1.Agg': m(1, ['stage0.S0', 'stage0.S1'], aggregate=True), 'stage1.T': m(1, ['stage1.Agg'])})
+    add('late-sibling', [comp('Y'), comp('A'), comp('X', ['A:ref'])],
+        {'stage0.Y': m(), 'stage0.A': m(), 'stage0.X': m(producers=['stage0.A'])})
     add('agg-plain', [comp('P'), comp('Agg', ['P:ref'], wa={'aggregate': True}), comp('T', ['Agg:ref'])],
         {'stage0.P': m(), 'stage0.Agg': m(producers=['stage0.P'], aggregate=True), 'stage0.T': m(producers=['stage0.Agg'])})
     return W
@@ -231,6 +233,12 @@ def make_scenarios(tier):
     out.append({'wf': 'observer2', 'labels': {'stage0.P': 'KF'}, 'dur': {'stage0.P': 12.0}})
     out.append({'wf': 'fanin', 'labels': {'stage0.P1': 'KF'}, 'dur': {'stage0.P2': 40.0}})
     out.append({'wf': 'fanin', 'labels': {'stage0.P1': 'KS'}, 'dur': {'stage0.P2': 40.0}})
+    # a restartable exit of X (staged in a later batch than Y) lands while the unrecoverable exit of Y is being handled
+    out.append({'wf': 'fanin', 'labels': {'stage0.P1': 'KF', 'stage0.P2': 'RS'}, 'dur': {'stage0.P2': 25.0003}})
+    out.append({'wf': 'fanin', 'labels': {'stage0.P1': 'KF', 'stage0.P2': 'KS'}, 'dur': {'stage0.P2': 25.0003}})
+    for d in (23.0, 24.0, 25.0):
+        out.append({'wf': 'late-sibling', 'labels': {'stage0.Y': 'KF', 'stage0.X': 'RS'}, 'dur': {'stage0.X': d}})
+        out.append({'wf': 'late-sibling', 'labels': {'stage0.Y': 'KF', 'stage0.X': 'KS'}, 'dur': {'stage0.X': d}})
     seen = set()
     res = []
     for s in out:
@@ -440,7 +448,7 @@ def worker_dev(col, item, tier, seed):
     which, scn, alts, positions, points, remaining = item
     for i in positions:
         for alt in range(1, points[i]):
-            if remaining > 0 and not is_boundary(alts[i][alt]):
+            if alts is not None and not is_boundary(alts[i][alt]):
                 continue
             run_one(col, which, scn, [0] * i + [alt], remaining, boundary_only=remaining > 0)
 
@@ -487,6 +495,27 @@ def run(ctx, which):
         step = max(1, len(pts) // 24)
         for lo in range(0, len(pts), step):
             items.append((which, s, None, list(range(lo, min(len(pts), lo + step))), pts, 0))
+    ctx.pmap('verif.vsched.ctl', 'worker_dev', items, maxtasksperchild=4)
+    # two-fault scenarios (a restartable exit racing an unrecoverable / shutdown exit of a sibling): all schedules with one
+    # deviation at a boundary action (controller-pool callback, main-loop pass, task exit, timer tick, monitor step)
+    races = [('fanin', {'stage0.P1': 'KF', 'stage0.P2': 'RS'}), ('fanin', {'stage0.P1': 'KS', 'stage0.P2': 'RS'})]
+    if ctx.tier == 'thorough':
+        races += [('fanin', {'stage0.P1': 'RS', 'stage0.P2': 'KF'}), ('diamond', {'stage0.B': 'KF', 'stage0.C': 'RS'}),
+                  ('replica', {'stage0.S0': 'KF', 'stage0.S1': 'RS'}), ('fanin', {'stage0.P1': 'KF', 'stage0.P2': 'XS'})]
+    items = []
+    nrace = 0
+    races = [(w, l, {}) for w, l in races] + [('late-sibling', {'stage0.Y': 'KF', 'stage0.X': 'RS'}, {'stage0.X': 24.0}),
+                                             ('fanin', {'stage0.P1': 'KF', 'stage0.P2': 'RS'}, {'stage0.P2': 25.0003})]
+    for wf, labels, dur in (races if not only else []):
+        sc = [x for x in scns if x['wf'] == wf and x['labels'] == labels and x['dur'] == dur]
+        if not sc:
+            continue
+        nrace += 1
+        pts, alts = points[sc[0]['id']]
+        step = max(1, len(pts) // 16)
+        for lo in range(0, len(pts), step):
+            items.append((which, sc[0], alts, list(range(lo, min(len(pts), lo + step))), pts, 0))
+    ctx.count('two_fault_scenarios_with_all_1_boundary_deviation_schedules', nrace)
     ctx.pmap('verif.vsched.ctl', 'worker_dev', items, maxtasksperchild=4)
     if ctx.tier == 'thorough':
         # deviation bound 2 restricted to boundary actions, for the smallest workflows
